@@ -21,15 +21,15 @@ CEILING = 4000
 
 
 def plan(tier, seed):
-    sp = progwork.shards(tier, 2500, 50000)
+    sp = progwork.shards(tier, 2500, 150000)
     if tier == 'quick':
         sp += [{'kind': 'hist', 'mode': 'random', 'n': 4000, 'slice': k} for k in range(4)]
         sp += [{'kind': 'hist', 'mode': 'exhaustive', 'maxlen': 5}]
         sp += [{'kind': 'refuse', 'n': 150, 'slice': k} for k in range(4)]
     else:
-        sp += [{'kind': 'hist', 'mode': 'random', 'n': 60000, 'slice': k} for k in range(8)]
+        sp += [{'kind': 'hist', 'mode': 'random', 'n': 150000, 'slice': k} for k in range(16)]
         sp += [{'kind': 'hist', 'mode': 'exhaustive', 'maxlen': 7, 'first': f} for f in range(len(OPS))]
-        sp += [{'kind': 'refuse', 'n': 1500, 'slice': k} for k in range(8)]
+        sp += [{'kind': 'refuse', 'n': 2500, 'slice': k} for k in range(16)]
     from hv import realwork
     return sp + realwork.shards('C06', tier)
 
